@@ -55,6 +55,8 @@ func c19Features() []gts.Feature {
 		{{"a", "x"}}, {{"a", "xy"}}, {{"a", ""}}, {{"a", "x", "xy"}}, {{"a", "", "y"}},
 		{{"b", "x"}}, {{"b", "y"}},
 		{{"a", "x"}, {"b", "y"}}, {{"a", "y"}, {"b", "x"}}, {{"b", "xy"}, {"a", "x"}}, {{"a", "xy", "x"}, {"b", ""}},
+		// the same qualifier name in two separate entries (only constructible through the API; judged for unnamed clauses)
+		{{"a", "x"}, {"b", "x"}, {"a", "y"}}, {{"b", "xy"}, {"a", ""}, {"b", "y"}},
 	}
 	for _, k := range []string{"gene", "CDS", "source"} {
 		for _, ps := range propsets {
@@ -259,6 +261,19 @@ func c19Eval(c c19Case) (ok bool, sig, detail string) {
 			}
 		}); p {
 			return false, "panic", fmt.Sprintf("Selector(%q) panics: %s", c.Sel, msg)
+		}
+		if judged {
+			// a named clause on a feature that lists that name in two separate entries is not judged:
+			// lookup by name is defined on the first entry only
+			cnt := map[string]int{}
+			for _, p := range f.Props {
+				cnt[p[0]]++
+			}
+			for _, cl := range ref.clauses {
+				if cl.name != "" && cnt[cl.name] > 1 {
+					judged = false
+				}
+			}
 		}
 		if !judged {
 			return true, "", ""
